@@ -171,3 +171,30 @@ def case(ctx, i, tier):
         k += 1
     ctx.cat("episode")
     ctx.notes["steps"] = k
+    # a second episode on the same environment serves the same data again
+    try:
+        obs = env.reset()
+    except Exception as ex:
+        ctx.violation("C18:reset", error=repr(ex)[:300], episode=2)
+        return
+    for j in range(3):
+        now = env.now()
+        Xp = env.X.loc[:now]
+        exp = Xp.iloc[-window:].values
+        if stride:
+            exp = exp[::-stride][::-1]
+        ctx.check("C18:observation", obs.shape == exp.shape and np.array_equal(obs, exp), now=now, episode=2, step=j)
+        for c in env.Y.columns:
+            y = Yin[str(c.symbol)].loc[now:now].dropna()
+            if len(y):
+                y = y.iloc[-1]
+                lob = env.exchange[c]
+                ctx.check("C18:quotes", lob.bid_price == y - y * SP / 2 and lob.ask_price == y + y * SP / 2,
+                          contract=c.symbol, now=now, episode=2)
+        if env._done:
+            break
+        try:
+            obs, rw, done, info = env.step(env.action_space.sample() * 0.3)
+        except ValueError:
+            break
+    ctx.cat("second-episode")
